@@ -606,7 +606,7 @@ func (h *handler1) handleSubscribe(ctx context.Context, snSubscribe *snPkts1.Sub
 		topic = string(snSubscribe.TopicName)
 		if !hasWildcard(topic) {
 			var err error
-			topicID, err = h.newTopicID()
+			topicID, err = h.registerTopic(topic)
 			if err != nil {
 				snSuback := snPkts1.NewSuback(0, snPkts1.RC_INVALID_TOPIC_ID, 0)
 				// We are kind of misusing the "invalid topic ID" return code here.
@@ -620,7 +620,7 @@ func (h *handler1) handleSubscribe(ctx context.Context, snSubscribe *snPkts1.Sub
 			// The Server is permitted to start sending PUBLISH packets matching
 			// the Subscription before the Server sends the SUBACK Packet.
 			// [MQTT v.5.0, chapter 3.8.4 SUBSCRIBE Actions]
-			h.registeredTopics.Store(topicID, topic)
+			// (registerTopic above reuses the TopicID of an already registered topic.)
 		}
 		// topicID remains zero if client is subscribing to a wildcard topic.
 	case snPkts1.TIT_PREDEFINED:
